@@ -300,6 +300,12 @@ class HGen:
                 tags |= t2
                 ids.append(idx)
             edges.append(ms)
+        if len(edges) >= 2 and "none-member" not in tags and rng.random() < 0.15:
+            # the very same set object is the member container of two entries (the network has to own its member sets)
+            i, j = rng.sample(range(len(edges)), 2)
+            if edges[i]:
+                edges[i] = edges[j] = set(edges[i])
+                tags.add("shared-set-object")
         if fmt in (2, 4, 5):
             nums = [i for i in ids if isinstance(i, (int, float)) and not isinstance(i, bool)]
             if any(a >= b for a, b in zip(nums, nums[1:])) or (nums and nums[-1] != max(nums)):
@@ -341,6 +347,9 @@ class HGen:
             tags.add("new-edge-via-add_node_to_edge")
             if isinstance(e, (int, float)) and e == 0:
                 tags.add("idx0")
+        elif self.hostile and "none-node" not in self.avoid and self.rng.random() < 0.08:
+            n = None  # refused; the existing edge must not have taken it in before the refusal
+            tags.add("none-node")
         return Op("add_node_to_edge", (e, n), tags=frozenset(tags))
 
     def g_remove_node(self):
@@ -584,6 +593,22 @@ class DHGen(HGen):
                 tags |= t2
                 ids.append(idx)
             edges.append(ms)
+        if len(edges) >= 2 and "none-member" not in tags and rng.random() < 0.2:
+            # the very same set object is the tail (or head) of two entries, or both sides of one entry
+            i, j = rng.sample(range(len(edges)), 2)
+            side = rng.randrange(2)
+            if edges[i][side]:
+                shared = set(edges[i][side])
+                a, b = list(edges[i]), list(edges[j])
+                a[side] = shared
+                if rng.random() < 0.7:
+                    b[side] = shared
+                else:
+                    a[1 - side] = shared
+                edges[i], edges[j] = type(edges[i])(a), type(edges[j])(b)
+                tags.add("shared-set-object")
+                if set(edges[i][0]) & set(edges[i][1]) or set(edges[j][0]) & set(edges[j][1]):
+                    tags.add("node-in-both")
         if fmt in (2, 4, 5):
             nums = [i for i in ids if isinstance(i, (int, float)) and not isinstance(i, bool)]
             if nums and nums[-1] != max(nums):
@@ -610,6 +635,9 @@ class DHGen(HGen):
         if self.hostile and self.rng.random() < 0.06:
             d = "sideways"
             tags.add("bad-direction")
+        elif self.hostile and not em and "none-node" not in self.avoid and self.rng.random() < 0.08:
+            n = None  # refused; the existing edge must not have taken it in before the refusal
+            tags.add("none-node")
         return Op("add_node_to_edge", (e, n, d), tags=frozenset(tags))
 
     def g_remove_node_from_edge(self):
